@@ -39,6 +39,9 @@ theorem C09_socket_destination (k : Kind) (os : Os) (remote : Addr) (t : Option 
     | err e => exact hnew
     | crash => exact hnew
 
+example : destinations (session .udp quietOs (.v6 0x2001 0xdb8 0 0 0 0 0 1 27015 0 3) none [.send [1], .send [2]]).2.2
+    = [.v6 0x2001 0xdb8 0 0 0 0 0 1 27015 0 3, .v6 0x2001 0xdb8 0 0 0 0 0 1 27015 0 3] := by decide
+
 /-- …and the payloads handed to `send_to` / `write` are exactly the byte strings given to `send`, one call each, in
 order, nothing else (for buffer sizes below `isize::MAX`, where no operation can panic and end the sequence). -/
 theorem C09_socket_payloads (k : Kind) (os : Os) (remote : Addr) (t : Option Timeout) (ops : List Op)
